@@ -224,7 +224,7 @@ func (pi *pkgInstr) findCaptured(fd *ast.FuncDecl) {
 // insertTouches puts vsched.Touch(&v, w) in front of every statement that
 // refers to a shared mutable variable.
 func (pi *pkgInstr) insertTouches(fe *fileEdits) {
-	if len(pi.mutable) == 0 {
+	if len(pi.mutable) == 0 && pi.o.NoFieldNotes {
 		return
 	}
 	for _, d := range fe.f.Decls {
@@ -331,7 +331,45 @@ func (pi *pkgInstr) touchStmt(fe *fileEdits, s ast.Stmt) {
 	}
 	found := map[*types.Var]*acc{}
 	var order []*types.Var
+	fieldW := map[string]bool{}
+	fieldLabel := map[string]string{}
+	var fieldOrder []string
 	for _, n := range direct {
+		if !pi.o.NoFieldNotes {
+			written := map[*ast.SelectorExpr]bool{}
+			fieldWrites(n, func(se *ast.SelectorExpr) { written[se] = true })
+			ast.Inspect(n, func(n ast.Node) bool {
+				switch x := n.(type) {
+				case *ast.FuncLit:
+					return false
+				case *ast.CallExpr:
+					if pi.isAtomicCall(x) {
+						return false
+					}
+				case *ast.SelectorExpr:
+					if !pi.guardedField(x) {
+						return true
+					}
+					root := rootIdent(x.X)
+					if root == nil || !pureRecv(x.X) {
+						return true
+					}
+					if obj := pi.info.Uses[root]; obj == nil || (obj.Pos() >= s.Pos() && obj.Pos() < s.End()) {
+						return true // declared by this very statement
+					}
+					txt := pi.text(fe, x)
+					fieldLabel[txt] = pi.fieldName(x)
+					if _, ok := fieldW[txt]; !ok {
+						fieldOrder = append(fieldOrder, txt)
+						fieldW[txt] = false
+					}
+					if written[x] {
+						fieldW[txt] = true
+					}
+				}
+				return true
+			})
+		}
 		// reads (any reference), skipping nested function literal bodies
 		ast.Inspect(n, func(n ast.Node) bool {
 			switch x := n.(type) {
@@ -366,11 +404,15 @@ func (pi *pkgInstr) touchStmt(fe *fileEdits, s ast.Stmt) {
 			}
 		})
 	}
-	if len(order) > 0 {
+	if len(order) > 0 || len(fieldOrder) > 0 {
 		var b strings.Builder
 		for _, v := range order {
 			fmt.Fprintf(&b, "vsched.Touch(&%s, %v); ", found[v].name, found[v].write)
 			pi.sum.TouchPoints++
+		}
+		for _, txt := range fieldOrder {
+			fmt.Fprintf(&b, "vsched.Access(func() interface{} { return &%s }, %v, %q); ", txt, fieldW[txt], fieldLabel[txt])
+			pi.sum.FieldNotes++
 		}
 		fe.insert(pi.off(s.Pos()), b.String())
 		fe.needV = true
@@ -426,4 +468,156 @@ func (pi *pkgInstr) isAtomicCall(c *ast.CallExpr) bool {
 		return pn.Imported().Path() == "sync/atomic"
 	}
 	return false
+}
+
+// ---------------------------------------------------------------------------
+// field notes: accesses to the fields of lock-carrying structs feed the
+// happens-before race check (no scheduling point). A struct that carries a
+// sync.Mutex / sync.RWMutex declares that its other fields are shared between
+// threads; every access that is not ordered after the previous conflicting
+// access by the modelled synchronisation is a lock-discipline violation (a
+// field read after the unlock, a lock taken in read mode for a write, a
+// missing lock) that the scheduler itself cannot interleave.
+
+func isSyncType(t types.Type) bool {
+	if p, ok := t.(*types.Pointer); ok {
+		t = p.Elem()
+	}
+	n, ok := t.(*types.Named)
+	if !ok || n.Obj().Pkg() == nil {
+		return false
+	}
+	switch n.Obj().Pkg().Path() {
+	case "sync", "sync/atomic":
+		return true
+	}
+	return false
+}
+
+func lockCarrying(t types.Type) (*types.Named, bool) {
+	if p, ok := t.(*types.Pointer); ok {
+		t = p.Elem()
+	}
+	n, ok := t.(*types.Named)
+	if !ok {
+		return nil, false
+	}
+	st, ok := n.Underlying().(*types.Struct)
+	if !ok {
+		return nil, false
+	}
+	for i := 0; i < st.NumFields(); i++ {
+		ft := st.Field(i).Type()
+		if p, ok := ft.(*types.Pointer); ok {
+			ft = p.Elem()
+		}
+		if fn, ok := ft.(*types.Named); ok && fn.Obj().Pkg() != nil && fn.Obj().Pkg().Path() == "sync" {
+			switch fn.Obj().Name() {
+			case "Mutex", "RWMutex":
+				return n, true
+			}
+		}
+	}
+	return n, false
+}
+
+// guardedField: se selects a data field (not itself a sync object) of a
+// lock-carrying struct declared in the repository.
+func (pi *pkgInstr) guardedField(se *ast.SelectorExpr) bool {
+	sel := pi.info.Selections[se]
+	if sel == nil || sel.Kind() != types.FieldVal {
+		return false
+	}
+	if isSyncType(sel.Type()) {
+		return false
+	}
+	n, ok := lockCarrying(sel.Recv())
+	if !ok || n.Obj().Pkg() == nil || !strings.HasPrefix(n.Obj().Pkg().Path(), "github.com/krotik/ecal") {
+		return false
+	}
+	name := n.Obj().Pkg().Name() + "." + n.Obj().Name()
+	for _, g := range pi.sum.GuardedTypes {
+		if g == name {
+			return true
+		}
+	}
+	pi.sum.GuardedTypes = append(pi.sum.GuardedTypes, name)
+	return true
+}
+
+// fieldName renders Type.field for race keys.
+func (pi *pkgInstr) fieldName(se *ast.SelectorExpr) string {
+	if sel := pi.info.Selections[se]; sel != nil {
+		if n, _ := lockCarrying(sel.Recv()); n != nil {
+			return n.Obj().Name() + "." + se.Sel.Name
+		}
+	}
+	return se.Sel.Name
+}
+
+// pureRecv: the receiver expression can be evaluated ahead of the statement
+// without side effects.
+func pureRecv(e ast.Expr) bool {
+	switch x := e.(type) {
+	case *ast.Ident:
+		return true
+	case *ast.ParenExpr:
+		return pureRecv(x.X)
+	case *ast.StarExpr:
+		return pureRecv(x.X)
+	case *ast.SelectorExpr:
+		return pureRecv(x.X)
+	}
+	return false
+}
+
+// fieldWrites calls fn for every selector that is written by n: assignment
+// target (also through an index or slice expression: the container the field
+// holds is modified), ++/--, delete, address-of.
+func fieldWrites(n ast.Node, fn func(se *ast.SelectorExpr)) {
+	strip := func(e ast.Expr) *ast.SelectorExpr {
+		for {
+			switch x := e.(type) {
+			case *ast.ParenExpr:
+				e = x.X
+			case *ast.IndexExpr:
+				e = x.X
+			case *ast.SliceExpr:
+				e = x.X
+			case *ast.SelectorExpr:
+				return x
+			default:
+				return nil
+			}
+		}
+	}
+	ast.Inspect(n, func(n ast.Node) bool {
+		switch x := n.(type) {
+		case *ast.FuncLit:
+			return false
+		case *ast.AssignStmt:
+			for _, l := range x.Lhs {
+				if se := strip(l); se != nil {
+					fn(se)
+				}
+			}
+		case *ast.IncDecStmt:
+			if se := strip(x.X); se != nil {
+				fn(se)
+			}
+		case *ast.CallExpr:
+			if f, ok := x.Fun.(*ast.Ident); ok && f.Name == "delete" && len(x.Args) > 0 {
+				if se := strip(x.Args[0]); se != nil {
+					fn(se)
+				}
+			}
+		case *ast.UnaryExpr:
+			if x.Op == token.AND {
+				if se := strip(x.X); se != nil {
+					fn(se)
+				}
+			}
+		}
+		return true
+	})
 }
